@@ -377,8 +377,16 @@ class Pats:
             self.texts.append(text)
         return self.texts.index(text)
 
-    def ptable(self):
-        return E.lst(["(%s, %s)" % (E.nlit(i), E.pstr(t)) for i, t in enumerate(self.texts)])
+    def ptable(self, fields=()):
+        """the oracle's id -> text table; with the key regexes MapMapper builds for the Map declarations in `fields`
+        (ids of Schema/ToSchema.v key_pid)"""
+        from harness import c08_src
+        rows = list(enumerate(self.texts))
+        keys = {}
+        for f in fields:
+            c08_src.key_entries(f, keys)
+        rows += sorted(keys.items())
+        return E.lst(["(%s, %s)" % (E.nlit(i), E.pstr(t)) for i, t in rows])
 
 
 JT = {"object": "TObject", "array": "TArray", "string": "TString", "number": "TNumber", "integer": "TInteger",
@@ -1015,6 +1023,29 @@ def rep_map_sizes(doc, ctx):
     walk_schemas(doc, fn)
 
 
+def rep_map_keys(doc, ctx):
+    """A Map whose String key field is constrained is exported as "patternProperties": {<key regex>: <value schema>} alone:
+    keys the regex does not find are unconstrained (and so are their values), and the regex is the key pattern followed by
+    the text "{min, max}", which is no bound on the key's length.  Repaired: the regex says what String(...) checks of a
+    key, and no other key is admitted."""
+    env = ctx["env"]
+
+    def fn(f, s_):
+        key = map_key_text(f) if f["t"] == "mapkv" else None
+        pp = s_.get("patternProperties")
+        if not key or not isinstance(pp, dict) or key not in pp or "additionalProperties" in s_:
+            return
+        kf = f["kf"]
+        lo, hi = kf.get("min") or 0, kf.get("max")
+        rx = "^(?=[\\s\\S]{%d,%s}\\Z)" % (max(lo, 0), "" if hi is None else hi)
+        if kf.get("pat") is not None:
+            rx += "(?:%s)" % G.PATTERNS[kf["pat"]]
+        s_["patternProperties"] = {rx: pp[key]}
+        s_["additionalProperties"] = False
+        ctx["changed"] = True
+    class_walk(env, env.top, doc, doc, fn, set())
+
+
 def rep_set_minitems(doc, ctx):
     def fn(s):
         if s.get("uniqueItems") is True and "minItems" in s:
@@ -1171,6 +1202,9 @@ def field_walk(env, f, s, doc, fn, seen):
                 field_walk(env, g, x, doc, fn, seen)
     elif t == "mapkv":
         x = s.get("additionalProperties") if isinstance(s.get("additionalProperties"), dict) else s.get("patternProperties")
+        key = map_key_text(f)
+        if isinstance(x, dict) and x is s.get("patternProperties") and key in x and isinstance(x[key], dict):
+            x = x[key]          # {<key regex>: <value schema>}  (the bare value schema before the repair of F16b)
         field_walk(env, f["vf"], x, doc, fn, seen)
     elif is_optional(f):
         field_walk(env, f["fs"][0], s, doc, fn, seen)
@@ -1190,6 +1224,13 @@ def field_walk(env, f, s, doc, fn, seen):
         if f["cls"] in env.classes:
             class_walk(env, f["cls"], d, doc, fn, seen)
     fn(f, s)
+
+
+def map_key_text(f):
+    """the key of "patternProperties" MapMapper writes for the Map declaration f (None: no String key field)"""
+    from harness import c08_src
+    kf = f.get("kf")
+    return c08_src.key_text(kf) if isinstance(kf, dict) and kf.get("t") == "str" else None
 
 
 def class_walk(env, cname, s, doc, fn, seen):
@@ -1319,7 +1360,6 @@ WF_REPAIRS = [("patternProperties-not-an-object-of-schemas", rep_patprops), ("re
 COMPLETE_REPAIRS = [("sign-dropped-under-explicit-bound", rep_sign),
                     ("enum-member-among-literals-serialized-as-stored", rep_literal_member),
                     ("multi-field-option-stores-the-name-of-a-by-value-enum-member", rep_multifield_by_value_name),
-                    ("Tuple-elements-serialized-without-their-item-fields", rep_tuple_untyped),
                     ("sign-only-bound-rendered-as-epsilon", rep_eps), ("nested-field-wrapper", rep_wrapper),
                     ("required-key-of-None-valued-attribute-dropped", rep_none_required),
                     ("single-item-Tuple-is-homogeneous", rep_tuple1),
@@ -1335,12 +1375,16 @@ COMPLETE_REPAIRS = [("sign-dropped-under-explicit-bound", rep_sign),
                     ("Decimal-value-serialized-as-string", rep_decimal),
                     ("bool-value-under-numeric-field", rep_bool_number),
                     ("NotField-evaluated-on-serialized-form", rep_not),
-                    ("OneOf-evaluated-on-serialized-form", rep_oneof)]
+                    ("OneOf-evaluated-on-serialized-form", rep_oneof),
+                    # repaired in the library (serialize_val gives Tuple elements their item fields): tried last, so that a
+                    # failure INSIDE a Tuple element is attributed to its own cause first
+                    ("Tuple-elements-serialized-without-their-item-fields", rep_tuple_untyped)]
 
 
 # exactness: a repair explains "admitted by the schema, rejected by the Deserializer" when the repaired (stricter)
 # schema rejects the document
 EXACT_REPAIRS = [("sign-dropped-under-explicit-bound", rep_sign),
+                 ("Map-key-constraints-not-enforced-by-patternProperties", rep_map_keys),
                  ("enum-member-among-literals-serialized-as-stored", rep_literal_member_exact),
                  ("positional-items-admit-shorter-arrays", rep_positional_min),
                  ("nested-field-wrapper", rep_wrapper),
@@ -1458,7 +1502,9 @@ def scase_text(ev, pats):
     if obs[0] == "ok":
         o = "(Some (%s, %s))" % (jval(obs[1]), jval(obs[2]))
     return ("{| sc_env := %s; sc_einfo := einfo0; sc_smap := %s; sc_pats := %s; sc_pre := %s; sc_cls := %s; "
-            "sc_obs := %s |}") % (env_text(env), env.coq_smap(), pats.ptable(), E.lst([E.pstr(n) for n in ev.pre]),
+            "sc_obs := %s |}") % (env_text(env), env.coq_smap(),
+                                  pats.ptable([fd["field"] for c in env.asts for fd in c["fields"]]),
+                                  E.lst([E.pstr(n) for n in ev.pre]),
                                   E.pstr(ev.cls), o)
 
 
